@@ -56,9 +56,10 @@ MUTATIONS = [
     ('s-add-overwrites', 'C09', S, "        if key in inner_keys:\n            raise Exception(", "        if False:\n            raise Exception("),
     ('s-move-keeps-source', 'C09', S, "        del self.get_path(source_path[:-1]).inner[source_path[-1]]\n\n        here = self.path_for()", "        here = self.path_for()"),
     ('s-flow-list', 'C10', E, "                assoc_path(self.flow, path, flow_update)", "                assoc_path(self.flow, path, flow_updates)"),
-    ('s-steps-not-deleted', 'C10', E, "                del self._step_paths[path]\n", "                pass\n"),
-    ('s-front-kept', 'C10', E, "            if path not in self.process_paths:\n                update = self.front.pop(path)['update']",
-     "            if False:\n                update = self.front.pop(path)['update']"),
+    # the progress record of a deleted process is dropped in two places (when its path is deleted, and
+    # by the sweep at the start of every iteration): either one alone is masked by the other, so both go
+    ('s-front-never-dropped', 'C10', E, ("            if path not in self.process_paths:\n                update = self.front.pop(path)['update']", '                del self.process_paths[path]\n                # Forget how far the process got and what it was still\n                # computing: a process created under the same path\n                # later, even in this batch, starts afresh.\n                advance = self.front.pop(path, None)'), ("            if False:\n                update = self.front.pop(path)['update']", '                del self.process_paths[path]\n                advance = None')),
+    ('s-step-graph-not-pruned', 'C10', E, "                    self._step_graph.remove(path)\n                except nx", "                    pass\n                except nx"),
     ('s-new-process-at-zero', 'C10', E, "                    self.front[path] = empty_front(self.global_time)\n                process_time",
      "                    self.front[path] = empty_front(0)\n                process_time"),
     ('s-split-both-remainder', 'C11', R, "            return [half, half + remainder]", "            return [half + remainder, half + remainder]"),
@@ -69,8 +70,6 @@ MUTATIONS = [
     ('s-quantity-not-halved', 'C11', R, "    elif isinstance(state, (float, Quantity)):\n        half = state/2", "    elif isinstance(state, (float, Quantity)):\n        half = state/2 if isinstance(state, float) else state"),
     ('s-inplace-front-kept', 'C10', E, "                self._add_process_path(process, path, new_flow)\n                # A process that replaces another one under the same\n                # path starts afresh as well.\n                advance = self.front.pop(path, None)",
      "                self._add_process_path(process, path, new_flow)\n                advance = None"),
-    ('s-deleted-front-kept', 'C10', E, "                del self.process_paths[path]\n                # Forget how far the process got and what it was still\n                # computing: a process created under the same path\n                # later, even in this batch, starts afresh.\n                advance = self.front.pop(path, None)",
-     "                del self.process_paths[path]\n                advance = None"),
     ('s-move-no-view-expire', 'C07', S, "                    deletions.extend(move_deletions)\n                    view_expire = True", "                    deletions.extend(move_deletions)"),
     ('s-steps-no-view-rebuild', 'C07', E, "            if view_expire:\n                self.state.build_topology_views()\n\n    def _send_updates", "            pass\n\n    def _send_updates"),
     ('w-glob-no-normalize', 'C06', T, "                    inner = normalize_path(outer + path + (child,))", "                    inner = outer + path + (child,)"),
@@ -109,6 +108,11 @@ MUTATIONS = [
      "    for key, override in overrides.items():\n        process = processes[key]\n        if isinstance(process, Process):\n            for other in processes.values():\n                if isinstance(other, Process):\n                    other.merge_overrides(override)"),
 ]
 
+# dropped as observationally equivalent on the repaired tree (kept for the record, not run):
+#   s-front-kept, s-deleted-front-kept: each of the two places that drop a deleted process's record masks the other
+#   s-steps-not-deleted: a stale _step_paths entry is never consulted (the execution layers come from the step graph)
+EQUIVALENT = [('s-steps-not-deleted', 'C10', 'E', '                del self._step_paths[path]\n', '                pass\n')]
+
 QUIET = [
     ('q-layers-longest-path', E, "        layers = nx.topological_generations(self._graph)\n",
      "        depth = {}\n        for node in nx.topological_sort(self._graph):\n            depth[node] = max([depth[p] + 1 for p in self._graph.predecessors(node)], default=0)\n        layers = [[n for n in depth if depth[n] == d] for d in range(max(depth.values(), default=-1) + 1)]\n"),
@@ -136,9 +140,11 @@ def make_copy(tag):
 def apply(dst, file, old, new):
     p = os.path.join(dst, file)
     s = open(p).read()
-    if s.count(old) < 1:
-        raise RuntimeError('mutation anchor not found in %s: %r' % (file, old[:60]))
-    s = s.replace(old, new, 1)
+    olds, news = (old, new) if isinstance(old, tuple) else ((old,), (new,))
+    for o, n in zip(olds, news):
+        if s.count(o) < 1:
+            raise RuntimeError('mutation anchor not found in %s: %r' % (file, o[:60]))
+        s = s.replace(o, n, 1)
     open(p, 'w').write(s)
 
 
@@ -147,8 +153,9 @@ def run_check(dst, prop, runs):
     env['VERIF_REPO'] = dst
     env['PYTHONPATH'] = VERIF + ':' + dst
     t = time.time()
+    # (the run count binds, not the wall clock: the verdict must not depend on the load)
     p = subprocess.run([os.path.join(VERIF, 'run'), 'check', prop, '--runs', str(runs),
-                        '--noevidence'],
+                        '--secs', '900', '--noevidence'],
                        env=env, capture_output=True, text=True, timeout=3000)
     return p.returncode, p.stdout, time.time() - t
 
